@@ -256,6 +256,12 @@ pub fn vf_array_mut_ref<T, const N: usize>(s: &mut [T], off: usize) -> (r: &mut 
     (&mut s[off..off + N]).try_into().unwrap()
 }
 
+// R2: whether `debug_assert!` arguments are evaluated depends on the build profile; nothing is known about it
+#[verifier::external_body]
+pub fn vf_debug_assertions_enabled() -> (r: bool) {
+    cfg!(debug_assertions)
+}
+
 // ---- little-endian words (R4) -----------------------------------------------------------------
 pub open spec fn sp_le32(b: Seq<u8>) -> u32 {
     (b[0] as u32) | ((b[1] as u32) << 8) | ((b[2] as u32) << 16) | ((b[3] as u32) << 24)
